@@ -25,7 +25,13 @@ MANIFEST_NOTE = ("Trusted: Lean kernel (+propext/Classical.choice/Quot.sound), t
                  "regenerated (the two branch conditions of merge(), one-line getters, IndexPair constructors, push_back in add: "
                  "differential execution only), tools/translators/tr_c03.py and the meaning given to its output in "
                  "Model/C03Src.lean (round-two pieces it cannot parse fall back to the canonical form and are listed in Gen.unparsed; "
-                 "round-four pieces are emitted as unknown and break their theorem), the harness/driver parsing and printing, "
+                 "round-four pieces are emitted as unknown and break their theorem; since round five the translator also "
+                 "normalises before it compares: const boolean locals and entry aliases are inlined at their declaration point, "
+                 "guard clauses/continue/else-if chains/conditional expressions become decision trees, and a loop body of merge() "
+                 "is replaced by the canonical tree only if it performs the same push_back/eraseToHere sequence for EVERY "
+                 "assignment of its atoms (DELETED flag x global indices 0..2 x comparator results) and contains no numeric "
+                 "literal; while/for/index-loop spellings of renumberLocal and a local accumulator in the GlobalLookupIndexSet "
+                 "constructor are evaluated symbolically), the harness/driver parsing and printing, "
                  "g++/ASan/UBSan. The chunked ArrayList is abstracted to a sequence (property C11; its copy/assignment is exercised "
                  "through copies of the index set); std::sort is modelled by insertion sort (theorem sort_unique: the sorted list is "
                  "unique for distinct keys); int overflow of seqNo_ is not modelled; sets of more than 2^30 entries are outside "
@@ -58,7 +64,14 @@ ASSUMPTIONS = [
     "localIndices_/newIndices_ are abstract sequences: ArrayList = its sequence is property C11",
     "std::sort is modelled as insertion sort; histories closing a phase with two equal (global, attribute) keys are outside the quantifier",
     "the translator compares the sort/merge comparison with its canonical form only on assignments inside the quantifier "
-    "(strict comparator, no two equal keys)",
+    "(strict comparator, no two equal keys of two live entries; a DELETED old entry may meet an equal added key); a comparison "
+    "or loop body containing a numeric literal is never normalised",
+    "translator tolerance (round five): equivalent spellings are recognised by reading rules that are sound one by one "
+    "(boolean locals bound at their declaration and never re-assigned, entry aliases valid until their iterator moves, a "
+    "condition hoisted over actions only if they do not move what it reads, `?:` = if/else, guard clause = else-if, "
+    "while = for = index loop from 0 with step 1, member initialiser = assignment in the constructor body); whatever falls "
+    "outside (helper functions, std algorithms, re-assigned locals, copies used after the iterator moved) is emitted as "
+    "unknown/none and breaks its theorem (round-four pieces) or falls back to the canonical form (round-two pieces)",
     "fixes/C03_lookup_single_entry.patch is applied to the tree under test",
     "a copy of an index set is modelled as the value itself (Model/C03World.lean); that the member-wise copy of the two ArrayLists is "
     "deep is checked by the differential run (views of the copy after the original changed), not proved",
